@@ -18,11 +18,15 @@ static int _add_reply(void *ctx, MPT_INTERFACE(convertable) *val, const MPT_INTE
 {
 	static const char *_func = "mpt_config_reply";
 	MPT_STRUCT(array) *arr = ctx;
-	const char *txt = mpt_convertable_data(val, 0);
+	const char *txt = val ? mpt_convertable_data(val, 0) : 0;
 	int len;
 	
 	(void) col;
 	
+	/* element without value */
+	if (!val) {
+		return MPT_ERROR(MissingData);
+	}
 	if (!arr) {
 		int type = val->_vptr->convert(val, 0, 0);
 		if (txt) {
